@@ -16,13 +16,13 @@ COMMON_MIR = [
 
 PROPS = {
     "C03": {
-        "mirsym": ["counter_verify", "fn_mocker_verify", "teardown", "teardown_wrappers", "assembler", "builder_chains", "tuples"],
+        "mirsym": ["counter_verify", "fn_mocker_verify", "teardown", "teardown_wrappers", "assembler", "builder_chains", "tuples", "call_path", "eval_generic", "drop_flags", "induce_panic"],
         "bounds": {"quick": "CallCounter::verify: all 2^64 x 2^64 x 3 (minimum, actual, exactness); FnMocker::verify: 2 patterns, arbitrary counters; teardown: method table iteration unrolled to <=3"},
         "assumptions": COMMON_KANI + COMMON_MIR,
         "outside": ["rendered message text", "minimum+1 overflow for n_times(usize::MAX).then()"],
     },
     "C01": {
-        "mirsym": ["call_path", "eval_dyn", "assembler", "construction", "tuples"],
+        "mirsym": ["call_path", "eval_dyn", "assembler", "construction", "tuples", "eval_generic"],
         "bounds": {"quick": "scan: K=3 patterns, all 27 verdict tables {reject,accept,error}^3, arbitrary 64-bit prior counts and ordered index; one step (state = counters, arbitrary => histories of any length); matcher downcast: all u8 x u8",
                    "thorough": "adds K=4 and the eval_dyn step with a 1-entry method table"},
         "assumptions": COMMON_KANI + ["predicates are modelled as an arbitrary verdict per pattern (the link matcher closure = predicate is C06)",
@@ -30,19 +30,19 @@ PROPS = {
         "outside": ["K > 4 patterns", "the matching! macro (C06)"],
     },
     "C02": {
-        "mirsym": ["builder_chains", "call_path", "eval_dyn", "eval_generic", "output_containers", "schedules", "generated_forwarding"],
+        "mirsym": ["builder_chains", "call_path", "eval_dyn", "eval_generic", "output_containers", "schedules", "generated_forwarding", "assembler", "tuples"],
         "bounds": {"quick": "segment lookup: S<=4 segments, repeat counts all values < 2^60 including 0, call index all 2^64; next_responder from an arbitrary counter value"},
         "assumptions": COMMON_KANI + COMMON_MIR + ["builder chains: IntoReturn / IntoReturnOnce / IntoReturner conversions are environment calls that record which conversion ran (their behaviour is decided under C12/C17)"],
         "outside": ["sum of repeat counts >= 2^63", "more than 4 segments"],
     },
     "C04": {
-        "mirsym": ["assembler", "call_path", "builder_chains", "tuples"],
+        "mirsym": ["assembler", "call_path", "builder_chains", "tuples", "eval_dyn"],
         "bounds": {"quick": "owner lookup and one ordered step: 3 patterns of the called method with arbitrary increasing disjoint 64-bit slot ranges (empty ranges allowed), arbitrary global index, arbitrary prior counts"},
         "assumptions": COMMON_MIR + COMMON_KANI + ["std::thread::current()/panicking() replaced by the overlay's std_shim (Kani cannot compile thread::current())"],
         "outside": ["more than 3 ordered patterns per method in one step harness"],
     },
     "C09": {
-        "mirsym": ["teardown", "drop_flags", "teardown_wrappers", "delegators", "induce_panic"],
+        "mirsym": ["teardown", "drop_flags", "teardown_wrappers", "delegators", "induce_panic", "fn_mocker_verify", "counter_verify", "tuples"],
         "bounds": {"quick": "one lifecycle step from an arbitrary state: all values of (original_instance, torn_down, verify_in_drop, panicking(), strong_count (64-bit), thread equality, recorded-error count, per-method error counts); method table M=0..2 (thorough 3)"},
         "assumptions": COMMON_MIR + ["Arc::strong_count, thread::panicking(), ThreadId comparison are environment variables (arbitrary values within their contracts)",
                                      "FnMocker::verify summarised at this level as 'appends n_i >= 0 errors' (decided separately under C03)"],
@@ -55,13 +55,13 @@ PROPS = {
         "outside": ["executing an unwind (the native replay does: child processes must exit 101, not SIGABRT)", "after a caught user panic the mock remains usable: argued from C01/C04 step facts"],
     },
     "C08": {
-        "mirsym": ["induce_panic", "teardown", "teardown_wrappers", "display_call", "output_containers", "eval_generic"],
+        "mirsym": ["induce_panic", "teardown", "teardown_wrappers", "display_call", "output_containers", "eval_generic", "call_path", "eval_dyn", "drop_flags", "delegators"],
         "bounds": {"quick": "induce_panic / handle_error / Continuation::report from an arbitrary state with any error value; teardown for all inputs (see C09)"},
         "assumptions": COMMON_MIR + ["the Mutex is an atomic block (its internals are trusted)"],
         "outside": ["errors racing from several threads", "message text", "the no_std `panicked` flag"],
     },
     "C07": {
-        "mirsym": ["eval_dyn", "call_path", "generated_forwarding", "delegators"],
+        "mirsym": ["eval_dyn", "call_path", "generated_forwarding", "delegators", "eval_generic", "induce_panic"],
         "bounds": {"quick": "the complete decision table of eval_dyn: method table M=0..2 entries with symbolic keys and symbolic called type id x has_default_impl x partial_by_default x fallback mode x scan result {none, pattern 0, pattern 1, error} x responder available; one call from an arbitrary state"},
         "assumptions": COMMON_MIR + ["match_call_pattern / next_responder are replaced by their contracts, which the Kani units c01_scan_first_match, c04_in_order_step, c02_next_responder_step decide on the compiled code"],
         "outside": ["the generated match arms that act on Unmock / CallDefaultImpl (C15/C16)", "argument values (the scan result is symbolic instead)"],
@@ -79,13 +79,13 @@ PROPS = {
         "outside": ["generic instantiation distinctness is a property of TypeId (trusted)", "message text"],
     },
     "C12": {
-        "mirsym": ["builder_chains", "eval_generic", "schedules", "output_containers"],
+        "mirsym": ["builder_chains", "eval_generic", "schedules", "output_containers", "call_path", "drop_flags", "teardown", "tuples"],
         "bounds": {"quick": "single-use value: all u8 payloads, 0..4 requests, then holder dropped (drop counter); repeatable value: 0..3 requests (clone + drop counters); composites (Option/Result/tuple/Vec/Poll over such leaves) in the external harness crate"},
         "assumptions": COMMON_KANI + ["sequential requests only: the race between threads is reduced to the atomic take() under the lock (MutexIsh::locked is an atomic block, see C10/C11 units)"],
         "outside": ["the builder refusing at compile time to quantify a non-Clone value (a fact about rustc's type checker)", "real threads racing for the value"],
     },
     "C13": {
-        "mirsym": ["delegators", "chain_schedules", "drop_flags"],
+        "mirsym": ["delegators", "chain_schedules", "drop_flags", "teardown"],
         "bounds": {"quick": "value chain: 2 shared pushes (type of the second symbolic), exclusive push after a shared one followed by a shared one, drop of chains of 0..2 values; thorough: 3 shared pushes; delegation helper accessors as_ref/as_mut: arbitrary instance, helper cell symbolically empty or filled"},
         "assumptions": COMMON_KANI + COMMON_MIR + ["once_cell::sync::OnceCell replaced (cfg(kani) only) by once_cell's own unsync cell behind the same API (Kani cannot compile the std implementation): single-threaded claim"],
         "outside": ["thousands of values (bound: 3)", "concurrent pushes through a shared &Unimock (the cell library is trusted)", "recursive drop of very long chains in push_value_mut (observation in DESIGN section 6)"],
@@ -98,13 +98,13 @@ PROPS = {
         "outside": ["patterns outside family G6 (the macro runs inside rustc: programs are covered per instantiation)", "3 or more top-level alternatives do not compile at all in this version (observed, not a soundness issue)"],
     },
     "C17": {
-        "mirsym": ["output_containers", "builder_chains"],
+        "mirsym": ["output_containers", "builder_chains", "eval_generic", "call_path"],
         "bounds": {"quick": "return-type family (16 methods of one generated trait: owned, Option<owned>, &T, &str, &'static T, Option<&T>, Option<&str>, Result<&T,E>, Result<&[T],NonClone>, Vec<&T> with 0/1/2 elements, 2- and 3-tuples, Poll<Option<&T>>, Poll<Result<&T,Clone>>, Vec<Result<&T,NonClone>>, Option<Result<&T,E>>); output kind = the one the macro chose; every variant, all leaf values, two or three requests"},
         "assumptions": COMMON_KANI + COMMON_MIR + ["element counts are constants per harness (0, 1, 2): a Vec of symbolic length is an allocation of symbolic size"],
         "outside": ["return types outside the family; element counts above 3; nesting depth above 3"],
     },
     "C10": {
-        "mirsym": ["schedules", "call_path", "chain_schedules", "induce_panic"],
+        "mirsym": ["schedules", "call_path", "chain_schedules", "induce_panic", "eval_generic", "teardown", "fn_mocker_verify", "tuples"],
         "bounds": {"quick": "symbolic schedule (one decision per atomic step) of threads x calls in {2x2, 3x1, 3x2} unordered and {2x2, 3x1} ordered on one shared pattern; thorough: up to 4x2 / 3x3, cross-checked with cvc5",
                    "thorough": "threads x calls in {2x2, 2x3, 3x2, 4x2, 3x3} for unordered calls and {2x2, 2x3, 3x2} for ordered calls (two atomic steps each; ordered 4x2 / 3x3 measured: no answer in 1500 s), z3 and cvc5 must agree"},
         "assumptions": COMMON_MIR + ["sequentially consistent memory (the code uses SeqCst); each atomic operation / lock-protected block is one indivisible step",
@@ -127,19 +127,19 @@ PROPS = {
         "outside": ["&mut self, by-value, Rc/Arc and Pin<&mut Self> receivers (Kani: teardown of the helper clone does not terminate; their release order is decided by the C09/C11 teardown unit)", "that counters/slots are then shared follows from the shared state identity (same step function, C01/C04)"],
     },
     "C16": {
-        "mirsym": ["eval_dyn", "induce_panic", "generated_forwarding"],
+        "mirsym": ["eval_dyn", "induce_panic", "generated_forwarding", "eval_generic", "call_path", "delegators"],
         "bounds": {"quick": "unmock_with in three forms (skip `_`, path, path(params)) at list positions 0..2 of a 3-method trait, sync and async: all argument values; recursion depth 1 through the mock; fall-through decisions: eval_dyn table (C07); missing function -> CannotUnmock recorded: induce_panic unit"},
         "assumptions": COMMON_KANI + COMMON_MIR + ["scripted evaluator answering Continuation::Unmock"],
         "outside": ["recursion depth > 1", "trait shapes outside the family"],
     },
     "C19": {
-        "mirsym": ["call_path", "eval_dyn", "counter_verify", "display_call", "induce_panic", "mismatch_msg", "expected_pattern"],
+        "mirsym": ["call_path", "eval_dyn", "counter_verify", "display_call", "induce_panic", "mismatch_msg", "expected_pattern", "teardown", "fn_mocker_verify"],
         "bounds": {"quick": "mismatch positions: the guard-free single-alternative members of pattern family G6 (C06 harnesses, diagnostics on) for all argument values; debug_inputs for 4 method shapes; pattern text/location for 3 invocations; which pattern index / operands an error names: E1 units"},
         "assumptions": COMMON_KANI + COMMON_MIR,
         "outside": ["rendered message text (formatting is stubbed under Kani and opaque for E1): wording, separators, '?' glyph", "file!()/line!() values beyond equality with the invocation site"],
     },
     "C20": {
-        "mirsym": ["mirror_wiring", "eval_dyn", "delegators", "assembler", "fn_mocker_verify"],
+        "mirsym": ["mirror_wiring", "eval_dyn", "delegators", "assembler", "fn_mocker_verify", "call_path", "eval_generic", "teardown"],
         "bounds": {"quick": "every trait mirrored under src/mock (core, std, embedded-hal 1, tokio 1, futures-io 0.3: all features on) and every method of each: entry-point wiring, provided/required classification against the UPSTREAM trait definition (rust-src / cargo registry sources), helper impl = required methods only, MockFnInfo flags; fall-through decisions for unmentioned provided methods: eval_dyn table"},
         "assumptions": COMMON_MIR + ["upstream trait definitions are read from the installed rust-src and the cargo registry sources (the versions Cargo.lock pins)",
                                      "structural obligations over the MIR of the generated impls (callee identity per method), no symbolic inputs are needed for wiring"],
